@@ -3,6 +3,7 @@
    A token is a decimal integer or f<16 hex digits> (IEEE-754 double bits).
    For each input line "ID tok*" prints, for every output line k of the entry,
    "ID k tok*".  Coq Z/N stay the extracted inductive types (no Extract Constant). *)
+open Tok
 open Entry
 
 let rec pos_of_int (n : int) : BinNums.positive =
